@@ -1,6 +1,7 @@
 package main
 
 import (
+	"go/token"
 	"fmt"
 	"sort"
 	"strings"
@@ -226,6 +227,80 @@ func runC12(r *Run) {
 			}
 		})
 		r.Check(debits >= 1, "R4", fnID(tr)+"#debit-owner", where, "owner is debited with a value derived from its own balance and amount", "no error-checked setBalance(ctx, owner, f(GetAccountBalances(owner), amount)) in TransferOwnership")
+		// every requested coin is looked up in the owner's balance: the lookup key is an element of the amount parameter
+		// (the requested coins drive the scan, not the holdings), and a coin that is not found cannot reach a success exit
+		{
+			isAmountElem := func(v ssa.Value) bool {
+				hit := false
+				backSlice(v).Any(func(x ssa.Value) bool {
+					switch y := x.(type) {
+					case *ssa.IndexAddr:
+						if isParam(y.X, "amount") {
+							hit = true
+						}
+					case *ssa.Index:
+						if isParam(y.X, "amount") {
+							hit = true
+						}
+					}
+					return hit
+				})
+				return hit
+			}
+			var lookups []ssa.CallInstruction
+			eachCall(tr, func(ci CallInfo) {
+				if ci.Name != "Find" && ci.Name != "AmountOf" && ci.Name != "AmountOfNoDenomValidation" {
+					return
+				}
+				a := callArgs(ci.Instr)
+				if len(a) < 2 {
+					return
+				}
+				recvBal := backSlice(a[0]).HasCall(func(g CallInfo) bool { return g.Name == "GetAccountBalances" || g.Name == "GetBalance" })
+				if recvBal && !backSlice(a[0]).HasParam("amount") && isAmountElem(a[1]) {
+					lookups = append(lookups, ci.Instr)
+				}
+			})
+			okLookup := len(lookups) > 0
+			var wit []string
+			for _, lk := range lookups {
+				if callInfo(lk).Name != "Find" {
+					continue
+				}
+				// Find returns (found bool, coin): the not-found edge must not reach a success exit
+				var notFound []Edge
+				for _, b := range tr.Blocks {
+					if ifi, ok := lastIf(b); ok {
+						cond, neg := ifi.Cond, false
+						for {
+							if u, ok := cond.(*ssa.UnOp); ok && u.Op == token.NOT {
+								neg, cond = !neg, u.X
+								continue
+							}
+							break
+						}
+						if ex, ok := cond.(*ssa.Extract); ok && ex.Tuple == lk.Value() && ex.Index == 0 {
+							if neg {
+								notFound = append(notFound, Edge{b, 0})
+							} else {
+								notFound = append(notFound, Edge{b, 1})
+							}
+						}
+					}
+				}
+				if len(notFound) == 0 {
+					okLookup = false
+				}
+				for _, e := range notFound {
+					if w := (PathQuery{Fn: tr, StartBlock: e.From.Succs[e.Succ], Target: isSuccessExit}).Search(); w != nil {
+						okLookup = false
+						wit = P.witness(w)
+					}
+				}
+			}
+			r.Check(okLookup, "R4", fnID(tr)+"#every-requested-coin-checked", where, "each coin of the amount is looked up in the owner's balance; a coin that is not held fails the transfer",
+				"TransferOwnership no longer looks every requested coin up in the owner's balance (the scan is driven by something other than the amount's coins, or a missing denomination does not fail): a requested denomination the owner does not hold is credited to the new owner without being debited anywhere — shares are created", wit...)
+		}
 		// keys
 		badKey := false
 		eachCall(tr, func(ci CallInfo) {
@@ -281,6 +356,24 @@ func runC12(r *Run) {
 	r.Floor("R4", "ucdao msg handlers", nH, 4)
 
 	// ---------- R6 ----------
+	r.Rule("R7", "FLOW.genesis-total-is-the-sum: the totals that InitGenesis records (setTotalBalanceOfCoin) derive from the balances it has just imported (GenesisState.Balances summed up), not from the document's optional TotalBalance field alone — an import without total_balance otherwise leaves the recorded total empty while shares exist")
+	if ig, ok := P.FnOK(ucdaoFn("InitGenesis")); ok {
+		n := 0
+		eachCall(ig, func(ci CallInfo) {
+			if ci.Name != "setTotalBalanceOfCoin" {
+				return
+			}
+			n++
+			sl := backSlice(argN(ci.Instr, 1))
+			r.Check(sl.HasField("GenesisState", "Balances") || sl.HasField("Balance", "Coins"), "R7", fnID(ig)+"#total-from-balances", P.Pos(instrPos(ci.Instr)), "recorded total derives from the imported balances",
+				"InitGenesis records a total that does not derive from the imported balances: with an omitted (optional) total_balance no total is recorded, and every later Fund adds to an empty total")
+		})
+		if n == 0 {
+			r.Bad("R7", fnID(ig)+"#total-from-balances", P.Pos(fnPos(ig)), "InitGenesis never records the total balance")
+		}
+	} else {
+		r.Bad("R7", "anchor/InitGenesis", "", "ucdao InitGenesis not found")
+	}
 	r.Rule("R6", "SHAPE.ratio-amount: TransferOwnershipWithRatio hands TransferOwnership, per held denom, exactly NewCoin(denom, TruncateInt(ToLegacyDec(balance amount) × msg.Ratio)) — no alternative amount on any path ('exactly the stated amount')")
 	if fn, ok := P.FnOK("(" + ucdaoK + ".msgServer).TransferOwnershipWithRatio"); ok {
 		nCoin, okShape := 0, true
